@@ -5,6 +5,7 @@ import fcntl
 import hashlib
 import json
 import os
+import shutil
 import re
 import subprocess
 import sys
@@ -95,6 +96,23 @@ def extracted_values():
 def lake_build(targets):
     with Lock('lake'):
         r = run(['lake', 'build'] + targets, cwd=LEAN)
+    return r.returncode == 0, r.stdout
+
+
+def lake_build_driver(tag):
+    """build the model driver and give THIS run its own copy of the binary: another check (same tree or, in experiments,
+    another tree) may relink .lake/build/bin/driver while this one is still using it"""
+    global DRIVER
+    with Lock('lake'):
+        r = run(['lake', 'build', 'driver'], cwd=LEAN)
+        src = os.path.join(LEAN, '.lake', 'build', 'bin', 'driver')
+        if r.returncode == 0 and os.path.exists(src):
+            d = os.path.join(BUILD, tag)
+            os.makedirs(d, exist_ok=True)
+            tmp = os.path.join(d, 'driver.tmp%d' % os.getpid())
+            shutil.copy2(src, tmp)
+            os.replace(tmp, os.path.join(d, 'driver'))
+            DRIVER = os.path.join(d, 'driver')
     return r.returncode == 0, r.stdout
 
 
